@@ -38,7 +38,9 @@ def run_arena(ctx, traces, ops, profile, fields=ALL_FIELDS, oracle_props=None, s
     label = label or profile
     if p.returncode != 0:
         ctx.add_ob(f"run:arena-{label}", "build", False, f"rc={p.returncode}\n{p.stderr[-2000:]}\n{p.stdout[-1500:]}")
-        ctx.oracle_failures.append({"engine": "arena", "profile": profile, "what": "the harness process died (abort / crash inside the real crate)",
+        died_oracles = [l for l in p.stdout.splitlines() if l.startswith("oracle ") and l.split()[1] in oracle_props][-3:]
+        ctx.oracle_failures.append({"engine": "arena", "profile": profile, "what": "the harness process died (abort / crash inside the real crate)"
+                                    + ("; direct oracle lines printed before it died: " + " || ".join(died_oracles) if died_oracles else ""),
                                     "last_lines": p.stdout.splitlines()[-6:], "stderr": p.stderr[-800:],
                                     "replay": f"VERIF_SEED={ctx.seed + seed_offset} {exe} {traces} {ops} {profile}"})
         return True
